@@ -900,7 +900,14 @@ impl TransactionBuilder {
             ));
         }
 
-        let col_return: Value = col_input_value.checked_sub(&Value::new(&total_collateral))?;
+        let mut col_return: Value = col_input_value.checked_sub(&Value::new(&total_collateral))?;
+        // a collateral input may carry a policy entry without assets; the output we create must not
+        if let Some(ma) = col_return.multiasset.as_mut() {
+            ma.0.retain(|_, assets| !assets.0.is_empty());
+            if ma.0.is_empty() {
+                col_return.multiasset = None;
+            }
+        }
         if col_return.multiasset.is_some() || col_return.coin > BigNum::zero() {
             let return_output = TransactionOutput::new(return_address, &col_return);
             let min_ada = min_ada_for_output(&return_output, &self.config.utxo_cost())?;
